@@ -1387,6 +1387,26 @@ def targeted(ctx):
     ctx.notes["targeted_search"] = f"{tried} da.store calls lifted from disagreeing write-index inputs"
 
 
+def probe_equal_looking_targets(ctx):
+    """deterministic probe of the listed finding `store:equal-looking-target-of-another-call:untouched`: two lazy store calls
+    with lock=False, the same source and equal-content in-memory targets, both expressions alive, computed one after the other"""
+    import dask
+    import dask_array as da
+
+    a = np.arange(6.0)
+    x = da.from_array(a, chunks=3)
+    t1, t2 = np.full(6, -1.0), np.full(6, -1.0)
+    r1 = da.store(x, t1, lock=False, compute=False)
+    r2 = da.store(x, t2, lock=False, compute=False)
+    dask.compute(r1, scheduler="sync")
+    dask.compute(r2, scheduler="sync")
+    ctx.count(("probe", "equal-looking-targets"))
+    if not (np.array_equal(t1, a) and np.array_equal(t2, a)):
+        ctx.fail("store:equal-looking-target-of-another-call:untouched",
+                 {"kind": "probe", "t1": t1.tolist(), "t2": t2.tolist()},
+                 "a store call whose source and target look like those of another live call leaves its own target unwritten")
+
+
 def run(ctx, replay=None):
     ctx.rule = (
         "search: seeded random da.store programs: 1-3 source/target pairs (rank 1-3, axis <= 6, zero-length chunks, sources "
@@ -1416,7 +1436,15 @@ def run(ctx, replay=None):
         "eager / to_delayed blocks / explicit full region) with the default lock or lock=True BUILT under dask.config scheduler = sync / "
         "synchronous / single-threaded (or another configuration) and EXECUTED with 4-8 threads (kwargs / config / pool / default) by "
         "dask.compute / .compute() / persist into a seek-then-write target (one shared cursor, read-modify-write write log): target "
-        "contents, write log and read-back vs a serial NumPy loop"
+        "contents, write log and read-back vs a serial NumPy loop.  PLUS (props_ext/c25_types) block / target TYPES: plain blocks of ten "
+        "dtypes (incl. datetime64 / timedelta64 / structured) and np.ma.MaskedArray blocks (mask in some / all / no positions, nomask, mask "
+        "only in some BLOCKS, fill_value; from_array / elemwise / rechunk / slice / map_blocks; rank 0-3) stored into ndarray / masked (all-"
+        "False, nomask, pre-masked soft and hard, own fill_value) / wrapper around a masked array / strided view / transposed view / Fortran "
+        "/ read-only targets of the same or another dtype (casts NumPy performs or refuses), regions or none, compute / compute=False / "
+        "return_stored eager and lazy, 1-2 pairs - full grid source class x target class x mode, casts, random; oracle NumPy's own "
+        "`target[region] = source` on a twin target (values, mask inside and outside the region, dtype, fill_value, base of a view; refusals "
+        "must be refused, read-only targets untouched); to_npy_stack / from_npy_stack of masked / structured / datetime / bool / complex "
+        "sources vs np.save / np.load per block"
     )
     ctx.assumptions = [
         "NumPy slice assignment `out[index] = x` writes x[j] to the j-th position selected by index on every axis (per-axis product)",
@@ -1431,6 +1459,9 @@ def run(ctx, replay=None):
         if str(case.get("kind", "")).startswith("stn."):  # harness/props_ext/c25_storend.py
             from harness.props_ext import c25_storend
             return c25_storend.run(ctx, replay)
+        if str(case.get("kind", "")).startswith("typ."):  # harness/props_ext/c25_types.py (block / target types)
+            from harness.props_ext import c25_types
+            return c25_types.run(ctx, replay)
         if case.get("kind") == "bt":  # harness/props_ext/c10_buildtime.py (store built under one scheduler config, run under another)
             from harness.props_ext import c10_buildtime
             for sig, detail in c10_buildtime.run_case(ctx, case) or []:
@@ -1460,7 +1491,10 @@ def run(ctx, replay=None):
     ])
     from harness.props_ext import c25_storend  # n-D store / several triples / npy stack (Props/C25StoreND.lean; stn.*)
     c25_storend.run(ctx)
+    probe_equal_looking_targets(ctx)
     from harness.props_ext import c10_buildtime  # store graphs built under a serial dask.config scheduler and executed with threads
     c10_buildtime.run(ctx, ctx.scale(6, 15), owner="C25")
+    from harness.props_ext import c25_types  # block / target types (masked, casts, views, read-only, structured / datetime; npy stack)
+    c25_types.run(ctx)
     if ctx.disagreements or ctx.audit.get("broken"):
         targeted(ctx)
